@@ -21,31 +21,61 @@ def _whole(l):
     return {'k': 'copy', 'pl': {'l': l, 'p': []}}
 
 
-def takes_verdict(ctx, body, f, lo, feas_calls):
-    """starting an iteration of loop `lo` with flag f == true, does every way round the loop leave f == the verdict of an is_feasible test of this iteration?
-    -> True / False / None (not recognised)"""
+def carried_flags(body, lo, hs, uses):
+    """holders of the flag's value that are carried through loop `lo`: bool locals with a definition outside the loop and one inside it that can
+    reach a place where the holder is read on the way to the Solution (flow-aware: a later loop writing the same variable does not count)"""
+    blocks = lo[4]; out = []
+    for h in sorted(hs):
+        if body.locals[h] != 'bool': continue
+        dbs = [bi for k, bi, d in body.defs_of(h)]
+        inside = [bi for bi in dbs if bi in blocks]
+        def reaches(bi, ub):
+            return ub is None or ub < 0 or bi == ub or ub in body.reach(body.succ(bi))
+        if any(bi not in blocks for bi in dbs) and any(reaches(bi, ub) for bi in inside for ub in uses.get(h, {None})): out.append(h)
+    return out
+
+
+def flag_step(ctx, body, cands, lo, feas_calls):
+    """Induction step for the flags carried through loop `lo`.  Entered with every carried flag false they are all false when the loop comes round
+    (sticky); entered with all of them true each of them then holds the verdict of an is_feasible test of this iteration.  Several flags are
+    stepped together when they all start from the literal `true` (`feasible` and its snapshot `feasible_relaxed = feasible` in a fused loop);
+    otherwise one by one.   -> ('ok' | 'bad' | 'unknown', why, takes: bool)"""
     nextc, header, some_bb, none_bb, blocks = lo
     tests = {c.bb for c in feas_calls if c.bb in blocks}
-    arr, rets, complete = PathEval(ctx, body).explore(some_bb, {f: ('b', True)}, stop={header})
-    envs = arr.get(header, [])
-    def takes(e):
-        v = e.get(f)
-        for tb in tests:
-            atom = ('payload', ('tok', tb))
-            if v == atom: return True
-            if v is not None and v[0] == 'b' and e.get(('fact', atom)) == v: return True
-        return None if v is None else False
-    got = [takes(e) for e in envs]
-    if not envs or any(g is False for g in got): return False
-    if not complete or any(g is None for g in got): return None
-    return True
+    def starts_true(f):
+        outs = [d for k, bi, d in body.defs_of(f) if bi not in blocks and header in body.reach(body.succ(bi))]       # what the flag can hold when the loop is entered
+        return bool(outs) and all('rv' in d and d['rv']['k'] == 'use' and d['rv']['ops'][0].get('v', '').replace('const ', '') == 'true' for d in outs)
+    groups = [list(cands)] if len(cands) > 1 and all(starts_true(f) for f in cands) else [[f] for f in cands]
+    pe = PathEval(ctx, body)
+    verdict = 'ok'; why = ''; takes_all = True
+    for g in groups:
+        arr, rets, complete = pe.explore(some_bb, {f: ('b', False) for f in g}, stop={header})
+        vals = [e.get(f) for e in arr.get(header, []) for f in g]
+        if any(v is not None and v != ('b', False) for v in vals): return 'bad', 'flag is overwritten by a later constraint (once false it does not stay false)', False
+        if not complete or any(v is None for v in vals): verdict = 'unknown'; why = 'value of the flag after an iteration that starts with `false` is not recognised'
+        arr, rets, complete = pe.explore(some_bb, {f: ('b', True) for f in g}, stop={header})
+        envs = arr.get(header, [])
+        def takes(e, f):
+            v = e.get(f)
+            for tb in tests:
+                atom = ('payload', ('tok', tb))
+                if v == atom: return True
+                if v is not None and v[0] == 'b' and e.get(('fact', atom)) == v: return True
+            return None if v is None else False
+        got = [takes(e, f) for e in envs for f in g]
+        if not envs or any(x is False for x in got): return 'bad', 'while the flag is true it does not take the verdict of this iteration\'s is_feasible', False
+        if not complete or any(x is None for x in got):
+            takes_all = False
+            if verdict == 'ok': verdict = 'unknown'; why = 'value of the flag after an iteration that starts with `true` is not recognised'
+    return verdict, why, takes_all and bool(groups)
 
 
 def flag_rules(ctx, body, sol, sbi, loops, feas_calls):
     """Solution.feasible_relaxed == AND of is_feasible over the active constraints, Solution.feasible == that AND
     the same over the removed ones.  Decided per loop as an induction step with the path evaluator (the flag is
     sticky-false and otherwise takes this item's verdict), independent of how the update is written:
-        if f { f = x? }   ==   f = f && x?   ==   f &= x?   ==   let ok = x?; if f { f = ok }   ==   if f && !x? { f = false }"""
+        if f { f = x? }   ==   f = f && x?   ==   f &= x?   ==   let ok = x?; if f { f = ok }   ==   if f && !x? { f = false }
+    and of whether each list has its own flag or one running flag is snapshotted (`feasible_relaxed = feasible` while the active constraints are visited)."""
     R = 'C05'
     def flag_local_of(field):
         op = agg_field_operand(sol, field)
@@ -57,33 +87,36 @@ def flag_rules(ctx, body, sol, sbi, loops, feas_calls):
                 if o['k'] in ('copy', 'move'): l = o['pl']['l']
         return l, op
     all_loops = body.loops()
-    holders = {}
+    holders = {}; steps = {}
+    def step(field, fld):
+        if (field, fld) not in steps:
+            hs, uses = holders[field]
+            cands = carried_flags(body, loops[fld], hs, uses)
+            steps[(field, fld)] = (cands,) + (flag_step(ctx, body, cands, loops[fld], feas_calls) if cands else ('none', '', False))
+        return steps[(field, fld)]
     for field, need, forbid in (('feasible_relaxed', ['constraints'], ['removed_constraints']), ('feasible', ['constraints', 'removed_constraints'], [])):
         l, op = flag_local_of(field)
         if l is None:
             ctx.bad(R + '.flags/%s/operand' % field, 'T-CARRY', body.name, 'Solution.%s is not fed by a local' % field, body.site(sbi)); continue
-        s = ctx.S.backslice(body, [l]); ctx.counters['slices'] += 1
-        fc = [c for c in feas_calls if c in s.call_objs]
+        # where the value comes from, flow-aware (what is read at the Solution literal): `true` before the loops; inside them only `false` or an is_feasible verdict
+        uses = {}
+        hs, leaves = origins(body, _whole(l), at_bb=sbi, uses=uses); ctx.counters['slices'] += 1
+        holders[field] = (hs, uses)
+        # the lists whose is_feasible verdicts reach the flag: by data (a verdict is among the sources) ...
         srcs = set()
-        for c in fc:
-            rs = ctx.S.slice_operand(body, c.args[0])
-            for f in ('constraints', 'removed_constraints'):
-                if rs.has_field(INST, f): srcs.add(f)
+        for kind, bi, obj in leaves:
+            if kind == 'call' and obj in feas_calls:
+                rs = ctx.S.slice_operand(body, obj.args[0])
+                for f in ('constraints', 'removed_constraints'):
+                    if rs.has_field(INST, f): srcs.add(f)
         # ... or by control: `if flag && !c.is_feasible(..)? { flag = false }` -- no data flows from the verdict into the flag, but an iteration
-        # that starts with flag == true ends with flag == this iteration's verdict (same path evaluation as the induction step below)
-        for fld_, lo_ in loops.items():
-            if fld_ in srcs: continue
-            for h in sorted(origins(body, _whole(l))[0]):
-                if body.locals[h] != 'bool': continue
-                dbs = [bi for k, bi, d in body.defs_of(h)]
-                if any(bi in lo_[4] for bi in dbs) and any(bi not in lo_[4] for bi in dbs) and takes_verdict(ctx, body, h, lo_, feas_calls) is True: srcs.add(fld_)
+        # entered with the flag true leaves it equal to this iteration's verdict (the induction step below)
+        for fld_ in loops:
+            if fld_ not in srcs and step(field, fld_)[3]: srcs.add(fld_)
         ctx.check(set(need) <= srcs, R + '.flags/%s/depends-on' % field, 'T-CARRY', body.name,
                   'Solution.%s does not depend on is_feasible of %s (depends on %s)' % (field, sorted(set(need) - srcs), sorted(srcs)), body.site(sbi))
         ctx.check(not (set(forbid) & srcs), R + '.flags/%s/independent-of' % field, 'T-CARRY', body.name,
                   'Solution.%s depends on is_feasible of %s' % (field, sorted(set(forbid) & srcs)), body.site(sbi))
-        # where the value comes from: `true` before the loops; inside them only `false` or an is_feasible verdict
-        hs, leaves = origins(body, _whole(l))
-        holders[field] = hs
         init_true = False; probs = []
         for kind, bi, obj in leaves:
             in_loop = any(bi in blocks for blocks in all_loops.values())
@@ -100,38 +133,13 @@ def flag_rules(ctx, body, sol, sbi, loops, feas_calls):
         if not probs: ctx.ok(R + '.flags/%s/defs' % field, 'T-CARRY', body.site(sbi))
         ctx.check(init_true, R + '.flags/%s/starts-true' % field, 'T-CONST', body.name, 'flag does not start as true', body.site())
     # ---- induction step, one per list
-    pe = PathEval(ctx, body)
     for fld, field in (('constraints', 'feasible_relaxed'), ('removed_constraints', 'feasible')):
         lo = loops.get(fld); rule = R + '.flags/%s/sticky' % field
         if lo is None or field not in holders: continue
-        nextc, header, some_bb, none_bb, blocks = lo
-        tests = {c.bb for c in feas_calls if c.bb in blocks}
-        cands = []
-        for h in sorted(holders[field]):
-            if body.locals[h] != 'bool': continue
-            dbs = [bi for k, bi, d in body.defs_of(h)]
-            if any(bi in blocks for bi in dbs) and any(bi not in blocks for bi in dbs): cands.append(h)
+        nextc = lo[0]
+        cands, verdict, why, takes_all = step(field, fld)
         if not cands:
             ctx.bad(rule, 'T-BRANCHFX', body.name, 'no flag is carried through the loop over self.%s' % fld, body.site(nextc.bb)); continue
-        verdict = 'ok'; why = ''
-        for f in cands:
-            arr, rets, complete = pe.explore(some_bb, {f: ('b', False)}, stop={header})
-            vals = [e.get(f) for e in arr.get(header, [])]
-            if any(v is not None and v != ('b', False) for v in vals): verdict = 'bad'; why = 'flag is overwritten by a later constraint (once false it does not stay false)'; break
-            if not complete or any(v is None for v in vals): verdict = 'unknown'; why = 'value of the flag after an iteration that starts with `false` is not recognised'
-            arr, rets, complete = pe.explore(some_bb, {f: ('b', True)}, stop={header})
-            envs = arr.get(header, [])
-            def takes(e):
-                v = e.get(f)
-                for tb in tests:
-                    atom = ('payload', ('tok', tb))
-                    if v == atom: return True
-                    if v is not None and v[0] == 'b' and e.get(('fact', atom)) == v: return True
-                return None if v is None else False
-            got = [takes(e) for e in envs]
-            if not envs or any(g is False for g in got): verdict = 'bad'; why = 'while the flag is true it does not take the verdict of this iteration\'s is_feasible'; break
-            if not complete or any(g is None for g in got):
-                if verdict == 'ok': verdict = 'unknown'; why = 'value of the flag after an iteration that starts with `true` is not recognised'
         if verdict == 'ok': ctx.ok(rule, 'T-BRANCHFX', body.site(nextc.bb), flag=cands)
         elif verdict == 'bad': ctx.bad(rule, 'T-BRANCHFX', body.name, why, body.site(nextc.bb))
         else:
@@ -176,6 +184,18 @@ def is_given_state(body, operand):
     with fixed / dependent / default values in the meantime (seed C05-9: the objective evaluated on the completed state)"""
     fs, root, calls = T.access_path(body, operand, transparent=T.TRANSPARENT_NOCLONE)
     return root == 2 and not fs
+
+
+def some_arms(body, adt, field, blocks):
+    """targets taken when Option field adt.field is Some, for every test of it inside `blocks`: a `match` / `if let` on the Option (variant 1 = Some) or the `?` applied to it
+    (`v.substituted_value?` in a closure returning Option: the test is on the ControlFlow of Try::branch, variant 0 = Continue = Some)"""
+    out = []
+    for sb, v1, v0 in option_field_tests(body, adt, field):
+        if sb not in blocks: continue
+        dl = body.blocks[sb]['term']['d']['pl']['l']
+        tested = [d['rv']['pl']['l'] for k, bb, d in body.defs_of(dl) if k == 'stmt' and d['rv']['k'] == 'discr']
+        out.append(v0 if tested and 'ControlFlow<' in body.locals[tested[0]] else v1)
+    return out
 
 
 def solution_rules(ctx, body):
@@ -270,14 +290,14 @@ def solution_rules(ctx, body):
                     and any((x[0] == 'call' and len(x) > 4 and x[4] == lo[0].bb) or (x[0] in ('place', 'local') and x[1] == item) for x in T.expr_walk(obj))
             paired = bool(ksrc) and bool(vsrc) and all(is_field(l, 'id') and l[3] == [] for l in ksrc) and all(is_field(l, 'substituted_value') and l[3] == ['ok'] for l in vsrc)
             if paired and not ((DV, 'id') in kf and any(f == 'substituted_value' for a, f in T.expr_fields(vex))):
-                arms = [sm for sb, sm, nn in option_field_tests(body, DV, 'substituted_value') if sb in lo[4]]
+                arms = some_arms(body, DV, 'substituted_value', lo[4])
                 if arms and all(must_pass_sem(ctx, body, a, {lo[1]}, {c.bb}) for a in arms): sub = ('precise', lo, c)
                 elif sub is None or sub[0] == 'slice': sub = ('skips', lo, c)
                 continue
             if (DV, 'id') in kf and any(f == 'substituted_value' for a, f in T.expr_fields(vex)):
                 # the pairing (v.id, v.substituted_value) is visible here: then it is decided here.
                 # On the Some arm, every iteration with a substituted value reaches the insert
-                arms = [sm for sb, sm, nn in option_field_tests(body, DV, 'substituted_value') if sb in lo[4]]
+                arms = some_arms(body, DV, 'substituted_value', lo[4])
                 if arms and all(must_pass_sem(ctx, body, a, {lo[1]}, {c.bb}) for a in arms): sub = ('precise', lo, c)
                 elif sub is None or sub[0] == 'slice': sub = ('skips', lo, c)
             elif any(canon(body, c.args[1]) == (m.dst['l'], (SOME0, ('tuple', '0'))) and canon(body, c.args[2]) == (m.dst['l'], (SOME0, ('tuple', '1')))
@@ -350,7 +370,32 @@ def check_bound_rules(ctx):
     R = 'C05.bound'
     b = ctx.method(R + '/check_bound/anchor', INST, 'check_bound')
     if b is None: return
-    gb = mustcall(ctx, R + '/check_bound/get_bounds', b, lambda c: c.item == 'get_bounds', 'self.get_bounds()?')
+    # the bounds the state is checked against are those of the unset-bound table for EVERY variable: `self.get_bounds()?`, or the same table built in place
+    # (a loop over self.decision_variables inserting, for every variable, under its id, the bound the three-way case split / Bound::try_from(v) gives)
+    gbs = [c for c in b.calls if c.item == 'get_bounds']
+    gb = None; table_ins = []
+    if gbs:
+        gb = mustcall(ctx, R + '/check_bound/get_bounds', b, lambda c: c.item == 'get_bounds', 'self.get_bounds()?')
+    else:
+        tfb = ctx.F.one('bound::Bound', 'try_from', 'TryFrom', ["&v1::DecisionVariable"])
+        tab, ntests, conv = _unset_bound_table(ctx, b)
+        if ntests == 0 and tfb is not None and any(CONV_DV.search(c.name) for c in b.calls): tab = _unset_bound_table(ctx, tfb)[0]; conv = [c for c in b.calls if CONV_DV.search(c.name)]
+        want = {'some': 'converted', 'none-binary': (0.0, 1.0), 'none-other': 'Bound::default'}
+        why = 'no self.get_bounds()? and no equivalent table built in place'
+        for lo in loops_over(ctx, b, INST, 'decision_variables'):
+            ins = [c for c in b.calls if c.bb in lo[4] and c.item == 'insert' and re.search(r'(HashMap|BTreeMap)::<', c.name) and len(c.args) == 3]
+            if not ins: continue
+            keyed = all((DV, 'id') in T.access_path(b, c.args[1])[0] and lo[0].dst['l'] in ctx.S.slice_operand(b, c.args[1]).locals for c in ins)
+            every = must_pass_sem(ctx, b, lo[2], {lo[1]}, {c.bb for c in ins}) and not ctx.S.slice_operand(b, lo[0].args[0]).has_call(r'Iterator>::(take|skip|filter|step_by|take_while|skip_while)')
+            errs_ok = True
+            for c in conv:
+                res = T.errflow(b, c.dst['l'])
+                if any(k == 'bad' for k, h in res):
+                    arr, rets, complete = PathEval(ctx, b).explore(c.target, {c.dst['l']: ('d', 1, None)}) if c.target >= 0 else ({}, [], False)
+                    errs_ok = errs_ok and complete and bool(rets) and all(result_kind(e) == 'err' for e in rets)
+            if tab == want and keyed and every and errs_ok and dominates_ok(ctx, b, lo[1]): table_ins = ins
+            else: why = 'the bounds built in place are not the unset-bound table for every variable (table %s, keyed %s, every %s, errors %s)' % (tab, keyed, every, errs_ok)
+        ctx.check(bool(table_ins), R + '/check_bound/get_bounds', 'T-MUSTCALL', b.name, why, b.site())
     # every entry of the state is visited; inside, the value is tested against the bound stored under the entry's id
     loops = [lo for lo in T.for_loops(b) if ctx.S.slice_operand(b, lo[0].args[0]).has_field('v1::State', 'entries')]
     ctx.check(bool(loops), R + '/check_bound/loop', 'T-LOOPMUST', b.name, 'no loop over state.entries', b.site())
@@ -367,7 +412,7 @@ def check_bound_rules(ctx):
         ctx.check(T.strip_wrappers(T.expr(b, c.args[2])) == ('place', 3, []), R + '/check_bound/atol', 'T-CARRY', b.name, 'contains() does not receive the given tolerance', b.site(c.bb))
         rs = ctx.S.slice_operand(b, c.args[0])
         gets = [x for x in rs.call_objs if x.item == 'get' and 'HashMap' in x.name]
-        ctx.check(bool(gets) and gb is not None and gb in rs.call_objs and nextc.dst['l'] in rs.locals, R + '/check_bound/bound-of-same-id', 'T-CARRY', b.name, 'the bound is not looked up under the entry\'s own id', b.site(c.bb))
+        ctx.check(bool(gets) and ((gb is not None and gb in rs.call_objs) or (table_ins and all(i in rs.call_objs for i in table_ins))) and nextc.dst['l'] in rs.locals, R + '/check_bound/bound-of-same-id', 'T-CARRY', b.name, 'the bound is not looked up under the entry\'s own id', b.site(c.bb))
         # every entry with a known bound reaches the test: with the lookup answering Some(..) no path comes round the loop
         # (or leaves it) without passing the test   [`if let Some(b) = m.get(k)` == `let b = m.get(k)?` in a closure == `match`]
         for gcall in gets:
@@ -593,7 +638,9 @@ def _removed_evaluate(ctx, R, b):
 
 # the reported objective / constraint values are produced by the evaluation kernels
 # ... and the dependent values of the reported state by eval_dependencies (seed C05-7: a single pass in id order instead of the fixed point)
-RELIES_ON = {'C01': ['C01.lookup', 'C01.fields', 'C01.every-term', 'C01.linear-none', 'C01.oneof'], 'C04': ['C04.deps', 'C04.use']}
+RELIES_ON = {'C01': ['C01.lookup', 'C01.fields', 'C01.every-term', 'C01.linear-none', 'C01.oneof'], 'C04': ['C04.deps', 'C04.use'],
+             # "previously fixed values": partial_evaluate records v.substituted_value and never resets it (seed C05-15)
+             'C03': ['C03.instance/record']}
 
 
 def check(ctx):
